@@ -32,6 +32,8 @@ func init() {
 			{ID: "C18.6", Desc: "under only-if-cached a stored response that needs validation is not served (the decision rows of C02.1)", Run: func(c *Ctx) { ruleC02_1(c); renameRule(c, "C02.1", "C18.6") }, MinSites: 3},
 			{ID: "C18.7", Desc: "the directive collector visits every pair (only-if-cached behind a repeated directive)", Run: func(c *Ctx) { ruleCollectorVisitsEveryPair(c, "C18.7") }, MinSites: 1},
 			{ID: "C18.8", Desc: "only-if-cached is not hidden by the escape handling of the list splitter (ext=\"C:\\\\\", only-if-cached)", Run: func(c *Ctx) { ruleC12_7(c); renameRule(c, "C12.7", "C18.8"); ruleEscapeOnlyInQuotes(c, "C18.8") }, MinSites: 1},
+			{ID: "C18.9", Desc: "the entry judged under only-if-cached is the entry that matched (the matcher ranks the caller's list)", Run: func(c *Ctx) { ruleMatcherIndexesCallersSlice(c, "C18.9") }, MinSites: 1},
+			{ID: "C18.10", Desc: "fields named by a qualified no-cache are stripped by their canonical names on the only-if-cached answer", Run: func(c *Ctx) { ruleC02_4(c); renameRule(c, "C02.4", "C18.10") }, MinSites: 1},
 		},
 	})
 }
